@@ -3,6 +3,7 @@ import Asts.Proofs.C02_Round
 import Asts.Proofs.C02_Idem
 import Asts.Proofs.C02_Policies
 import Asts.Proofs.C02_BBound
+import Asts.Proofs.C02_CFront
 
 /-! # C02 — reconciliation converges to exactly the desired pods and then goes quiet
 
@@ -202,10 +203,10 @@ theorem degenerate_hashing_never_converges :
 
 A world is **normal** (`NormC h i`, decidable reading `normCB`) when: the spec is valid (as in `Final`), the strategy is
 OnDelete or the `rollingUpdate` block with a partition `≥ 0` is present (the legacy boundary mode is excluded), every pod
-object in the list belongs to the set (owned, member, selector, canonical name, `0 ≤ ordinal < MaxInt32`, storage matches,
+object in the list belongs to the set (owned, member, selector, canonical name, `0 ≤ ordinal`, storage matches,
 admitted), ordinals are pairwise distinct, the revisions are quiet (the newest listed revision records the template with a
 compatible hash label; no listed revision is an orphan), sizes are within the model's id scheme (`|pods|, replicas ≤ freshId
-= 10^6`, `replicas + |slots| ≤ MaxInt32`; `roomB`: extra pods + replicas `≤ freshId`) and the uncached GET finds the set.
+= 10^6`; `roomB`: extra pods + replicas `≤ freshId`) and the uncached GET finds the set.
 Pods may be missing, Failed/Succeeded, unready, terminating, outdated, lacking identity, extra (outside the desired set), in
 any number; the revision history may be of any length (truncation is part of the proof). Under OrderedReady (`normOB`) no
 Failed/Succeeded pod lies outside the desired set (the exclusion the property itself makes). This is the state the worlds
@@ -451,12 +452,12 @@ theorem C02_converges_preNB (h : Hashing) (i : SyncIn) (hb : preNB h i = true) :
     having passed only revisions that record something else, within `|store| + 8` probes, and when the collision count
     moves the stored status does not already name the new revision) and `labelsOkB` (no unparsable hash label next to a
     mismatching parsable one among the revisions that record the template):
-    (i) every pod object is a member of the set — **missing case: pod objects that merely carry the labels (non-members,
-    released in the first sync) or are controlled by somebody else; they are inert, but `Final` as defined here speaks about
-    the whole pod list** (1 % of the generated `wfWorld` worlds);
+    (i) every pod object is a member of the set — this case is closed in Part 6 (`C02_converges`): pod objects that merely
+    carry the labels (non-members, released in the first sync) or are controlled by somebody else are inert, and `Final`
+    holds with them in the list (1 % of the generated `wfWorld` worlds);
     (ii) `spec.replicas` is set, storage of every pod matches (`stOk`; the model never repairs it), one pod object per
     ordinal — outside these the model does not reach `Final` at all;
-    (iii) sizes within the model's id scheme (`|pods|`, replicas, room `≤ 10^6`; `replicas + |slots| ≤ MaxInt32`), distinct
+    (iii) sizes within the model's id scheme (`|pods|`, replicas, room `≤ 10^6`), distinct
     names of stored revisions, no colon in the set's name (log entries are colon-separated). -/
 theorem C02_converges_partial (h : Hashing) (i : SyncIn) (hw : wfWorld h i = true) (hx : extraB h i = true) :
     ∃ n ≤ roundBound i, Final h (roundsN h n i) := by
@@ -533,5 +534,103 @@ theorem equalRevision_not_transitive_quiet_not_final :
     (syncF lmH (settle ntWorld) []).outcome = .ok ∧ (syncF lmH (settle ntWorld) []).upd = "b" ∧
     finalB lmH (settle ntWorld) = false := by
   refine ⟨by decide +kernel, by decide +kernel, by decide +kernel, by decide +kernel, by decide +kernel, by decide +kernel⟩
+
+/-! ## Part 6 — pod objects that are not members of the set
+
+`wfWorld` lets the pod list hold objects that are no members of the set (their names do not parse as `<set>-<ordinal>`):
+label carriers the set controls (released in the first sync: `claimDecision` = release, one `patch:pod:` call), orphans that
+merely carry the labels (ignored), pods controlled by somebody else (ignored). **`Final` can hold with such objects in the
+list** — its pods clause asks of an orphan only that it is not adoptable and nothing of a pod controlled by somebody else —
+so the gap (i) of `C02_converges_partial` was a gap of the proof, not of the definition.
+
+The proof: the reconcile sees the claimed pods only, and the claimed pods are exactly the members (`claim_nilM`). `mOf x` is
+the world with the members only, **pod ids as they are** (positions in the whole list; for that the normal-world theory was
+re-based from `IdPos`, ids = positions, to `IdOk`, ids distinct and below the ids of new pods). One sync + apply of `x` has
+the same status, store and collision count as one sync + apply of the prepared members-only world, and its pod list is the
+old one with the claim stage's patches (`norm1`: member orphans owned, non-members released) and the reconcile's calls
+applied (`prep_simM`). Restricted to the members and with the owners forgotten, the next world is the next world of the
+normal-world theory **up to pod ids and order** (`StepRaw.keyPerm`; ids are positions in the whole list, so the two are never
+equal) — therefore the measure argument runs on the real worlds themselves, transferring class membership, measure, `Fix`
+and `Final` along that relation at every step (`ConvClass`, `conv_stg`), instead of on a shadow run. Non-members stay
+non-members under their names and are not the set's from the second world on (`StepRaw.inert`, `StepRaw.nmNames`);
+`final_of_Y` puts them back under `Final`.
+
+What `extraMB` asks about non-members (all true of real API objects, but `member`, `name` and `pod.ord` are independent
+fields of the model): pod names are pairwise distinct; a non-member does not carry the canonical name of a DESIRED ordinal
+(such a pod would block the create for ever while the model lets the create succeed); a non-member the set controls has no
+colon in its name (the model reads the release back from a colon-separated log entry). All 4 325 generated worlds inside
+`wfWorld` are inside `preNMB`. -/
+
+/-- the class of the general theorem with non-members allowed, decidable reading -/
+abbrev preNMB (h : Hashing) (i : SyncIn) : Bool := Asts.C02p.preNMB h i
+/-- what `preNMB` asks beyond `wfWorld`: `extraB` with its clause (i) "every pod object is a member" replaced by the three
+    clauses on non-members above, the other clauses speaking about the members -/
+abbrev extraMB (h : Hashing) (i : SyncIn) : Bool := Asts.C02p.extraMB h i
+
+/-- **one sync + apply in a world with non-members**, against the prepared members-only world: everything but the pod
+    list agrees -/
+theorem C02_sync_with_nonmembers (h : Hashing) (x : SyncIn) (G : List Rev) (upd : Rev) (cc : Int) (hp : PreM x)
+    (hpick : PickOut h x.template (x.collisionCount.getD 0) (adoptS x.store) G upd cc)
+    (hcc : cc ≠ x.collisionCount.getD 0 → x.stored.updateRev ≠ upd.name)
+    (hn : NormC h (Asts.C02p.prepW h (mOf x))) (hok : hn.recon.2 = .ok) :
+    ({ applySync x [] (syncF h x []) with pods := [] } : SyncIn) =
+      { applySync (Asts.C02p.prepW h (mOf x)) [] (syncF h (Asts.C02p.prepW h (mOf x)) []) with pods := [] } ∧
+    (syncF h x []).outcome = .ok ∧
+    (applySync x [] (syncF h x [])).pods =
+      reindex (sortPods (applyActs x.setName x.pods (x.pods.map norm1) hn.recon.1.acts)) :=
+  ⟨(prep_simM hp hpick hcc hn hok).1, (prep_simM hp hpick hcc hn hok).2.1, (prep_simM hp hpick hcc hn hok).2.2.1⟩
+
+/-- **non-members stay inert**: after a round no non-member is the set's -/
+theorem C02_nonmembers_inert (h : Hashing) (K : SyncIn → Prop) (C : ConvClass h K) (x : SyncIn) (hs : Stg h K x) :
+    ∀ c ∈ (nextW h x).pods, c.member = false → c.owner ≠ .self :=
+  (stg_next C hs).2.2.2.2.1.2
+
+/-- **`Final` of the members-only view is `Final` of the world**, once every member is owned and no other pod object is
+    the set's -/
+theorem C02_final_of_members (h : Hashing) (z : SyncIn) (hf : Final h (Y z)) (hz : PTwo z) : Final h z := final_of_Y hf hz
+
+/-- general convergence, non-members allowed: within the measure of the prepared members-only world + 3 rounds -/
+theorem C02_converges_preNMB (h : Hashing) (i : SyncIn) (hb : preNMB h i = true) :
+    ∃ n ≤ (if legacyB i.view then muL (Asts.C02p.prepW h (mOf (settle i))) else muPods (Asts.C02p.prepW h (mOf (settle i)))) + 3,
+      Final h (roundsN h n i) :=
+  converge_generalM hb
+
+/-- **C02, convergence**: every world inside the premises of the property (`wfWorld`) and inside `extraMB` reaches `Final`
+    — the promised state, after which every reconcile writes nothing — within the number of rounds the monitor allows.
+    Pod objects that are no members of the set (label carriers, foreign pods, non-member orphans) included.
+
+    What `extraMB` asks beyond `wfWorld` (nothing of it is a gap of the proof any more; each clause is either needed in the
+    model or a fact about API objects the model's independent fields do not enforce):
+    * the hashing premises `hashOkB`, `labelsOkB` (needed: `label_mismatch_never_quiet`, `degenerate_hashing_never_converges`,
+      `equalRevision_not_transitive_quiet_not_final`);
+    * `spec.replicas` is set, storage of every member matches, one member per ordinal (outside these the model does not
+      reach `Final`);
+    * pod names pairwise distinct, names of stored revisions pairwise distinct (API objects);
+    * no non-member under the canonical name of a desired ordinal; no colon in the set's name nor in the name of a non-member
+      the set controls (model encoding);
+    * sizes within the model's id scheme: non-members + members outside the desired set + replicas `≤ 10^6` (new pods get the
+      ids `10^6 + ordinal`; `|pods| ≤ 10^6` and `replicas ≤ 10^6` follow). No int32 bound on ordinals, replicas or slots is
+      needed any more (the first-unhealthy scan no longer depends on the `MaxInt32` sentinel). -/
+theorem C02_converges (h : Hashing) (i : SyncIn) (hw : wfWorld h i = true) (hx : extraMB h i = true) :
+    ∃ n ≤ roundBound i, Final h (roundsN h n i) := by
+  obtain ⟨n, hn, hf⟩ := converge_generalM (preNMB_of_wf hw hx)
+  exact ⟨n, le_trans hn (generalM_le_roundBound h i), hf⟩
+
+/-- `exPre` with three pod objects that are no members: a label carrier the set controls (released in the first sync), a
+    pod controlled by somebody else, an orphan that merely carries the labels -/
+def exPreM : SyncIn :=
+  { exPre with
+    pods := exPre.pods ++
+      [ { name := "carrier", owner := .self, selMatch := true, member := false,
+          pod := { id := 3, ord := -1, phase := .running, ready := true, terminating := false, rev := "", idOk := true, stOk := true } },
+        { name := "foreign", owner := .other, selMatch := true, member := false,
+          pod := { id := 4, ord := -1, phase := .pending, ready := false, terminating := false, rev := "", idOk := true, stOk := false } },
+        { name := "stray", owner := .none, selMatch := true, member := false,
+          pod := { id := 5, ord := -1, phase := .running, ready := true, terminating := false, rev := "", idOk := false, stOk := true } } ] }
+
+example : wfWorld exH exPreM = true := by decide +kernel
+example : extraMB exH exPreM = true := by decide +kernel
+example : preNMB exH exPreM = true := by decide +kernel
+example : extraB exH exPreM = false := by decide +kernel
 
 end Asts.C02
